@@ -166,7 +166,7 @@ public:
             // or an account the checker does not know, with the empty password), then bind and a stanza to the victim
             const qint64 c = r.uniform(3);
             const qint64 u = r.weighted({ 25, 25, 25, 25 });
-            const qint64 kind = r.weighted({ 50, 30, 0, 20 });
+            const qint64 kind = r.weighted({ 40, 22, 0, 14, 0, 12, 6, 6 });
             auto add = [&](const QString &k, QVector<qint64> a) { p.ops.append(mkop(k, a, {}, (quint32)r.next())); };
             add(QStringLiteral("open"), { c, 0 });
             add(QStringLiteral("pump"), {});
@@ -203,7 +203,7 @@ public:
                 p.ops.append(mkop(QStringLiteral("auth"), { c, r.weighted({ 60, 25, 8, 7 }), (qint64)r.weighted({ 30, 30, 30, 10 }), r.weighted({ 45, 40, 15 }), (qint64)r.chance(0.3) }, {}, salt));
                 break;
             case 2:
-                p.ops.append(mkop(QStringLiteral("response"), { c, r.weighted({ 40, 27, 12, 11, 10 }), (qint64)r.weighted({ 30, 30, 30, 10 }) }, {}, salt));
+                p.ops.append(mkop(QStringLiteral("response"), { c, r.weighted({ 36, 24, 11, 10, 9, 4, 3, 3 }), (qint64)r.weighted({ 30, 30, 30, 10 }) }, {}, salt));
                 break;
             case 3:
                 p.ops.append(mkop(QStringLiteral("abort"), { c }, {}, salt));
@@ -620,6 +620,20 @@ public:
                             const QByteArray a1 = simcrypto::hash("MD5", user + ":" + realm + ":" + pw) + ":" + nonce + ":" + cnonce;
                             const QByteArray resp = simcrypto::hash("MD5", simcrypto::hash("MD5", a1).toHex() + ":" + nonce + ":" + nc + ":" + cnonce + ":auth:" + simcrypto::hash("MD5", "AUTHENTICATE:" + uri).toHex()).toHex();
                             data = "username=\"" + user + "\",realm=\"" + realm + "\",nonce=\"" + nonce + "\",cnonce=\"" + cnonce + "\",nc=" + nc + ",qop=auth,digest-uri=\"" + uri + "\",response=" + resp + ",charset=utf-8";
+                            // what somebody without the password can still send: the directive left out, left empty, or cut
+                            // down to a few characters of a digest computed with a guessed password
+                            const int kind = (int)op.arg(1);
+                            if (kind == 5) {
+                                data.replace(",response=" + resp, "");
+                                res.faults[QStringLiteral("digest_response_directive_missing")]++;
+                            } else if (kind == 6) {
+                                data.replace(",response=" + resp, ",response=");
+                                res.faults[QStringLiteral("digest_response_directive_empty")]++;
+                            } else if (kind == 7) {
+                                const QByteArray guess = simcrypto::hash("MD5", user + ":guess:" + nonce).toHex().left(1 + (int)r.uniform(2));
+                                data.replace(",response=" + resp, ",response=" + guess);
+                                res.faults[QStringLiteral("digest_response_truncated_guess")]++;
+                            }
                             if (c.exchangeMech == QLatin1String("DIGEST-MD5")) {
                                 c.exchangeUser = QString::fromLatin1(user);
                                 c.digestResponseValid = op.arg(1) == 0 && !c.nonce.isEmpty();   // a replay (kind 3) proves nothing
